@@ -182,7 +182,14 @@ pub fn run(thorough: bool, seed: u64, _replay: Option<String>) -> Report {
             }
         }
         // ---- oracle on detection: single chunk, encoding probed alone, threshold sweep
-        let enc = *rng.pick(&["utf-8", "utf-8", "utf-16le", "gb18030"]);
+        let mut enc = *rng.pick(&["utf-8", "utf-8", "utf-16le", "gb18030"]);
+        // a code page that targets particular languages, reading a text it can represent (scores of exactly 0 occur here)
+        if i % 4 == 3 {
+            let page = *rng.pick(&["iso-8859-7", "windows-1251", "windows-1255", "koi8-r", "iso-8859-5", "windows-1253", "ibm866", "windows-1256", "windows-874"]);
+            if enc_bytes(&text, page).is_some() {
+                enc = page;
+            }
+        }
         let mut bytes = enc_bytes(&text, enc).unwrap_or_else(|| text.clone().into_bytes());
         if enc == "utf-16le" {
             let mut b = b"\xff\xfe".to_vec();
@@ -235,6 +242,21 @@ pub fn run(thorough: bool, seed: u64, _replay: Option<String>) -> Report {
                     }
                     if coh.iter().any(|(_, sc)| *sc < t) {
                         rep.fail("oracle", "C19:listed-below-threshold", &format!("lthr {}", t), &bytes, Some(&s), enc);
+                    }
+                    // a single chunk: what the match lists is what the coherence analysis of its text yields for the
+                    // languages its encoding targets – nothing dropped or added on the way into the match
+                    if let Some(txt) = m.decoded_payload() {
+                        let targets: Vec<&'static charset_normalizer_rs::entity::Language> =
+                            if charset_normalizer_rs::utils::is_multi_byte_encoding(enc) { vh::mb_encoding_languages(enc) } else { vh::encoding_languages(enc.to_string()) };
+                        if let Ok(direct) = vh::coherence_ratio(txt.to_string(), Some(t), Some(targets)) {
+                            let merged = vh::merge_coherence_ratios(&[direct]);
+                            let a: Vec<(String, u32)> = coh.iter().map(|(l, x)| (format!("{}", l), x.to_bits())).collect();
+                            let b: Vec<(String, u32)> = merged.iter().map(|(l, x)| (format!("{}", l), x.to_bits())).collect();
+                            rep.count("oracle:match-list-vs-coherence-of-text");
+                            if a != b && enc != "ascii" {
+                                rep.fail("oracle", "C19:match-list-differs-from-coherence-of-its-text", &format!("lthr {}: match lists {:?} but the analysis of its text gives {:?}", t, a, b), &bytes, Some(&s), enc);
+                            }
+                        }
                     }
                     lists.push((t, coh.iter().map(|(l, s)| (format!("{}", l), *s)).collect()));
                     // the same call under the roomy window (1, len + 1) must list the same languages with the same scores
